@@ -61,7 +61,7 @@ def scenario(ctx, i):
         cur = dict(w=r.dirichlet(np.full(C, 3.0)), m=m + 0.3 * r.normal(size=m.shape) * np.sqrt(v), v=v * r.uniform(0.5, 2, v.shape))
     return dict(C=C, D=D, w=w, m=m, v=v, x=x, um=um, uv=uv, uw=uw, reynolds=reyn, r=rel, alpha=alpha, thr=thr, st=st, cur=cur, floor=gen.EPS, int_prior=int_prior,
                 late=[None, None, "set_params", "setattr"][int(r.integers(0, 4))],
-                sw_kind=["py", "py", "np", "int"][int(r.integers(0, 4))])
+                sw_kind=["py", "py", "np", "int"][int(r.integers(0, 4))], direct=bool(r.random() < 0.25))
 
 
 def mk_map(sc, **kw):
@@ -138,7 +138,7 @@ def correspondence(ctx):
         ctx.count("starved-component" if starved else "all-components-have-evidence")
         ctx.case([core.tolist(sc["m"]), core.tolist(st.n), sw, sc["r"], sc["alpha"], sc["reynolds"]], nontrivial=sc["C"] >= 2 and (sc["um"] or sc["uv"] or sc["uw"]),
                  sample={"C": sc["C"], "D": sc["D"], "switches": sw, "relevance": sc["r"] if sc["reynolds"] else None, "alpha": sc["alpha"], "n": st.n})
-        inp = {**{k: sc[k] for k in ("w", "m", "v", "um", "uv", "uw", "reynolds", "r", "alpha", "thr", "cur", "late", "int_prior", "sw_kind") if k in sc}, "stats": gen.stats_impl(st)}
+        inp = {**{k: sc[k] for k in ("w", "m", "v", "um", "uv", "uw", "reynolds", "r", "alpha", "thr", "cur", "late", "int_prior", "sw_kind", "direct") if k in sc}, "stats": gen.stats_impl(st)}
         if isinstance(res, core.ImplError):
             bad.append({"op": "gmm_mstep_map:means", "input": inp, "impl": repr(res)})
             continue
@@ -196,7 +196,14 @@ def oracle(sc):
     st = get_stats(sc, g)
     cur = pget(g)
     n, px, pxx, t = np.asarray(st.n, float), np.asarray(st.sum_px, float), np.asarray(st.sum_pxx, float), float(st.t)
-    res = core.impl(lambda: pget(gmod.m_step([st], g)[0]))
+    if sc.get("direct"):
+        # the public update function called directly, each coefficient given the way its own parameters say (a fixed ratio:
+        # `reynolds_adaptation=False, alpha=...`, the relevance factor left alone; Reynolds: the factor, alpha left alone)
+        kw_ = dict(update_means=sc["um"], update_variances=sc["uv"], update_weights=sc["uw"], mean_var_update_threshold=sc["thr"])
+        kw_.update(dict(reynolds_adaptation=True, relevance_factor=sc["r"]) if sc["reynolds"] else dict(reynolds_adaptation=False, alpha=sc["alpha"]))
+        res = core.impl(lambda: (gmod.map_gmm_m_step(g, st, **kw_), pget(g))[1])
+    else:
+        res = core.impl(lambda: pget(gmod.m_step([st], g)[0]))
     if isinstance(res, core.ImplError):
         return {"sig": "map-m-step-raises", "what": repr(res)}
     w0, m0, v0 = np.asarray(ubm.weights), np.asarray(ubm.means), np.asarray(ubm.variances)
@@ -297,7 +304,7 @@ def search(ctx):
         f = oracle_penalised(sc)
         if f and f["sig"] not in seen:
             seen.add(f["sig"])
-            f["input"] = {k: sc[k] for k in ("C", "D", "w", "m", "v", "x", "um", "uv", "uw", "reynolds", "r", "alpha", "thr", "st", "cur", "floor", "late", "int_prior", "sw_kind") if k in sc}
+            f["input"] = {k: sc[k] for k in ("C", "D", "w", "m", "v", "x", "um", "uv", "uw", "reynolds", "r", "alpha", "thr", "st", "cur", "floor", "late", "int_prior", "sw_kind", "direct") if k in sc}
             f["oracle"] = "penalised"
             fails.append(f)
     for i in range(ctx.budget(64, 640)):
@@ -307,7 +314,7 @@ def search(ctx):
         f = oracle(sc) or (oracle_limits(sc) if i % 4 == 0 else None)
         if f and f["sig"] not in seen:
             seen.add(f["sig"])
-            f["input"] = {k: sc[k] for k in ("C", "D", "w", "m", "v", "x", "um", "uv", "uw", "reynolds", "r", "alpha", "thr", "st", "cur", "floor", "late", "int_prior", "sw_kind") if k in sc}
+            f["input"] = {k: sc[k] for k in ("C", "D", "w", "m", "v", "x", "um", "uv", "uw", "reynolds", "r", "alpha", "thr", "st", "cur", "floor", "late", "int_prior", "sw_kind", "direct") if k in sc}
             f["oracle"] = "limits" if f["sig"].startswith("map-limit") else "blend"
             fails.append(f)
     return fails
